@@ -1804,8 +1804,14 @@ class Translator:
             if v['kind'] in ('TypeAliasDecl', 'TypedefDecl', 'UsingDecl', 'StaticAssertDecl', 'UsingDirectiveDecl'):
                 continue
             if v['kind'] == 'DecompositionDecl':
-                for st in self.decomposition(v):
+                sts = self.decomposition(v)
+                for st in self.pre:
                     self.out(st)
+                self.pre = []
+                for j, st in enumerate(sts):
+                    self.out(st)
+                    if j == 0:
+                        self.propagate()
                 continue
             if v['kind'] != 'VarDecl':
                 self.abort(v, 'declaration')
@@ -1837,9 +1843,19 @@ class Translator:
         n_comp = len(k[1]) if k[0] in ('tup', 'rec') else k[2]
         if len(binds) != n_comp:
             self.abort(v, 'structured binding of %d names to %d components' % (len(binds), n_comp))
+        copied = bool(out)
         for j, b in enumerate(binds):
             comp = '_%d' % j if k[0] == 'tup' else ('a[%d]' % j if k[0] == 'arr' else k[1][j][1])
-            self.alias[b['id']] = '%s.%s' % (x, comp)
+            cty = k[1][j] if k[0] == 'tup' else (k[1] if k[0] == 'arr' else k[1][j][0])
+            if copied:
+                # bindings of a COPY: each component becomes a local of its own (CBMC cannot form the address of a
+                # member of a record that holds unbounded arrays, and nothing else can reach the copy)
+                nm = self.fresh(b['name'])
+                self.locals[b['id']] = nm
+                self.var_types[nm] = cty
+                out.append('%s %s = %s.%s;' % (cty, nm, x, comp))
+            else:
+                self.alias[b['id']] = '%s.%s' % (x, comp)
         return out
 
     def lambda_of(self, x):
